@@ -49,8 +49,8 @@ def frame_lens(stream: bytes):
 class Endpoint:
     """a real HsmsProtocol on the in-memory connection; counts blocks whose handler has RETURNED"""
 
-    def __init__(self, gated_clear=False):
-        self.s, self.p, self.c = M.new_protocol()
+    def __init__(self, gated_clear=False, active=False, **kw):
+        self.s, self.p, self.c = M.new_protocol(active=active, **kw)
         self.handled = 0
         self.disp_gate = None            # when set: the dispatcher is held before the handler of the next block
         self.disp_held = threading.Event()
@@ -272,6 +272,68 @@ def inmemory_part(res, rng, drv, big, racing=True):
             mp = "ok " + " | ".join(project(x) for x in m[3:].split(" | ")) if m.startswith("ok ") else m
             if mp != "ok " + " | ".join(snaps):
                 res.disagree("close sequence (random stream): real threads vs Model.Wedge", {"case": case}, mp, "ok " + " | ".join(snaps))
+
+
+# ---------------------------------------------------------------------------------------------- active mode: "selects again"
+def sent_select_reqs(ep):
+    with ep.c.lock:
+        raw = b"".join(ep.c.sent)
+    return [b.header.system for b in M.split_frames(raw) if b.header.s_type.value == 1]
+
+
+def active_scenario(res, off, body):
+    """ACTIVE endpoint on the in-memory connection.  The peer's stream is Select.rsp (to our Select.req), Linktest.req, a data message; it is
+    cut at `off` (offsets below 14: our Select transaction is still open, T6 = 5 s not expired), the link is closed and comes back at once:
+    a Select.req has to be written on the new connection, and answering it has to select."""
+    case = {"kind": "active-cut", "offset": off}
+    ep = Endpoint(active=True, t6=5)
+    ep.connect()
+    if not M.wait_until(lambda: len(sent_select_reqs(ep)) == 1, 2.0):
+        res.violate("c09-no-select-req", "active endpoint: no Select.req within 2 s of the first connect", case, 1, sent_select_reqs(ep))
+        return
+    sys1 = sent_select_reqs(ep)[0]
+    stream = M.ref_frame(sys1, 0xFFFF, 0, 0, False, 0, 2, b"") + LINKTEST_REQ(41) + DATA(42, 1, 13, True, body)
+    prefix = stream[:off]
+    n_complete = len(frame_lens(prefix)[0])
+    ep.feed(prefix)
+    if not ep.settle(n_complete):
+        res.violate("c09-not-quiescent", "active endpoint: complete frames of the prefix not handled within 5 s", case)
+        return
+    if n_complete >= 1 and ep.state() != ConnectionState.CONNECTED_SELECTED:
+        res.violate("c09-reselect", "active endpoint: not SELECTED after the Select.rsp", case, "CONNECTED_SELECTED", str(ep.state()))
+    if not ep.close():
+        res.bump("close_hangs", "n")
+        res.violate("c09-close-hang", f"active endpoint: close sequence did not finish within {CLOSE_BOUND:.0f} s", case)
+        return
+    if ep.state() != ConnectionState.NOT_CONNECTED or ep.buf() != 0:
+        res.violate("c09-state", "active endpoint: not NOT_CONNECTED / buffer not empty after the close sequence", case,
+                    "NOT_CONNECTED, 0", (str(ep.state()), ep.buf()))
+    ep.c.take()
+    ep.connect()
+    if not M.wait_until(lambda: len(sent_select_reqs(ep)) >= 1, 2.5):
+        res.violate("c09-no-select-req", "active endpoint: link lost" + (" while the Select transaction was open" if n_complete == 0 else "")
+                    + ", link back before T6: no Select.req is written on the new connection within 2.5 s (does not select again)", case,
+                    "one Select.req", sent_select_reqs(ep))
+        ep.close()
+        return
+    reqs = sent_select_reqs(ep)
+    ep.feed(M.ref_frame(reqs[0], 0xFFFF, 0, 0, False, 0, 2, b""))
+    if len(reqs) != 1 or not M.wait_until(lambda: ep.state() == ConnectionState.CONNECTED_SELECTED, 2.0):
+        res.violate("c09-reselect", "active endpoint: new connection not SELECTED after answering its Select.req (or several Select.req)", case,
+                    "one Select.req, CONNECTED_SELECTED", {"select_reqs": reqs, "state": str(ep.state())})
+    ep.close()
+
+
+def active_part(res, rng, big):
+    body = rng.bytes(3)
+    n = 14 + 14 + 14 + 3
+    offs = list(range(n + 1)) if big else sorted({0, 1, 4, 7, 13, 14, 15, 21, 28, 30, 42, n} | {rng.range(0, n) for _ in range(6)})
+    for off in offs:
+        if res.hist.get("close_hangs", {}).get("n", 0) >= 6:
+            break
+        active_scenario(res, off, body)
+        res.count(("active-cut", off), sample={"op": "ACTIVE endpoint: cut, close, reconnect inside T6, Select.req on the new connection", "offset": off} if off == 7 else None)
+        res.bump("active_cut", "select transaction open" if off < 14 else "selected")
 
 
 # ---------------------------------------------------------------------------------------------- witnesses of recorded findings
@@ -694,11 +756,76 @@ def relisten_case(res, local_first: bool):
         peer2.close()
 
 
+def idle_cycle_case(res, active: bool):
+    """enable() → disable() with no peer ever connected → enable(): the endpoint has to work like a fresh one — a peer connects, the session
+    is selected, a Linktest.req is answered, and the peer's close is noticed."""
+    case = {"kind": "tcp-idle-cycle", "mode": "active" if active else "passive"}
+    res.count(("tcp-idle-cycle", active), sample={"op": "real sockets: enable, disable (no peer), enable, connect, select, linktest, peer close", **case})
+    res.bump("tcp_cases", "idle cycle " + case["mode"])
+    port = free_port()
+    mode = secsgem.hsms.HsmsConnectMode.ACTIVE if active else secsgem.hsms.HsmsConnectMode.PASSIVE
+    p = secsgem.hsms.HsmsProtocol(secsgem.hsms.HsmsSettings(address="127.0.0.1", port=port, connect_mode=mode, t5=1, t6=2))
+    if not call_bounded(p.enable, 5):
+        res.violate("c09-enable-hang", "enable() did not return within 5 s", case)
+        return
+    time.sleep(0.4)
+    if not call_bounded(p.disable, 8):
+        res.violate("c09-disable-hang", "disable() with no peer did not return within 8 s", case, "returns", diag(p))
+        return
+    srv = None
+    if active:
+        srv = socket.socket()
+        srv.setsockopt(socket.SOL_SOCKET, socket.SO_REUSEADDR, 1)
+        srv.bind(("127.0.0.1", port))
+        srv.listen(1)
+        srv.settimeout(6)
+    if not call_bounded(p.enable, 5):
+        res.violate("c09-enable-hang", "second enable() did not return within 5 s", case)
+        return
+    if active:
+        try:
+            peer, _ = srv.accept()
+        except OSError:
+            res.violate("c09-no-connect", "active endpoint did not connect within 6 s of the second enable()", case)
+            call_bounded(p.disable, 5)
+            return
+        req = read_frames(peer, 1, 3.0)
+        if not req or req[0].header.s_type.value != 1:
+            res.violate("c09-no-select-req", "active endpoint sent no Select.req on its connection", case)
+        else:
+            peer.sendall(M.ref_frame(req[0].header.system, 0xFFFF, 0, 0, False, 0, 2, b""))
+        sel = M.wait_until(lambda: p.connection_state.current == ConnectionState.CONNECTED_SELECTED, 3.0)
+    else:
+        peer = connect_peer(port)
+        if peer is None:
+            res.violate("c09-no-listen", "passive endpoint does not accept a connection within 3 s of the second enable()", case)
+            call_bounded(p.disable, 5)
+            return
+        sel, _ = select_on(peer, p, 4343)
+    if not sel:
+        res.violate("c09-reselect", "after enable/disable/enable the session is not SELECTED (the endpoint does not read what the peer sends)", case,
+                    "CONNECTED_SELECTED", str(p.connection_state.current))
+    peer.sendall(LINKTEST_REQ(77))
+    got = read_frames(peer, 1, 3.0)
+    if not (got and got[0].header.s_type.value == 6 and got[0].header.system == 77):
+        res.violate("c09-no-linktest-rsp", "Linktest.req on the established connection is not answered within 3 s", case, "Linktest.rsp(77)",
+                    [(b.header.s_type.value, b.header.system) for b in got])
+    peer.close()
+    if not M.wait_until(lambda: p.connection_state.current == ConnectionState.NOT_CONNECTED, 6.0):
+        res.violate("c09-close-hang", "NOT_CONNECTED not reached within 6 s of the peer's close", case, "NOT_CONNECTED", str(p.connection_state.current))
+    if not call_bounded(p.disable, 8):
+        res.violate("c09-disable-hang", "final disable() did not return within 8 s", case, "returns", diag(p))
+    if srv is not None:
+        srv.close()
+
+
 def tcp_part(res, rng, drv, big):
     f13_witness(res, drv)
     idle_server_witness(res, drv)
     relisten_case(res, True)
     relisten_case(res, False)
+    idle_cycle_case(res, False)
+    idle_cycle_case(res, True)
     if not big:
         return
     stream = LINKTEST_REQ(31) + DATA(32, 1, 13, True, b"\x01\x02\x03") + LINKTEST_RSP(33)
@@ -749,11 +876,12 @@ def main():
         replay_cases(res, recorded)
     racing = not replaying or "c09-stale-reply-next-connection" in rec_classes or any(not (v.get("case") or {}).get("quiescent", True) for v in recorded)
     M.guarded(res, "in-memory", lambda: inmemory_part(res, rng.fork("mem"), drv, big, racing))
+    M.guarded(res, "active mode", lambda: active_part(res, rng.fork("active"), big))
     if not replaying or "c09-send-failure-strands-queue" in rec_classes:
         M.guarded(res, "witness send failure", lambda: witness_send_failure(res, drv))
     if not replaying or "c09-stale-reply-next-connection" in rec_classes:
         M.guarded(res, "witness stale reply", lambda: witness_stale_reply(res, drv))
-    if not replaying or rec_classes & {"c09-tcp-disable-hang", "c09-tcp-server-idle-disable-hang", "c09-disable-hang", "c09-enable-hang", "c09-no-listen", "c09-no-reconnect", "c09-no-connect", "c09-reselect", "c09-state"} \
+    if not replaying or rec_classes & {"c09-tcp-disable-hang", "c09-tcp-server-idle-disable-hang", "c09-disable-hang", "c09-enable-hang", "c09-no-listen", "c09-no-reconnect", "c09-no-connect", "c09-reselect", "c09-state", "c09-no-linktest-rsp", "c09-no-select-req"} \
             or any((v.get("case") or {}).get("kind", "").startswith("tcp") for v in recorded):
         M.guarded(res, "tcp", lambda: tcp_part(res, rng.fork("tcp"), drv, big))
     if replaying:
